@@ -6,6 +6,11 @@ id="$1"; name="${2:-$1}"; root="${SEEDROOT:-/tmp/seed}"; w=$root/$id
 export PYTHONDONTWRITEBYTECODE=1
 unset PYDBML_VERIF
 cd "$w" || exit 2
+# (git stash is shared by all worktrees of a repository: never use it here, agents may run concurrently)
+if [ -s patch.diff ] && ! git diff -- pydbml | cmp -s - patch.diff; then
+  echo "$id: working tree differs from the agent's patch.diff -> tree reset to HEAD + patch.diff"
+  git checkout -q -- pydbml && git apply patch.diff || { echo "$id: patch.diff does not apply"; exit 1; }
+fi
 git diff -- pydbml > $root/$id.patch
 [ -s $root/$id.patch ] || { echo "$id: empty patch"; exit 1; }
 git status --short | grep -v '^??' | grep -v ' pydbml/' && { echo "$id: touches files outside pydbml"; }
@@ -13,9 +18,9 @@ imp=$(/venv/bin/python -c "import pydbml;print(pydbml.__file__)")
 case "$imp" in $w/*) ;; *) echo "$id: wrong import $imp"; exit 2;; esac
 t_with=$(/venv/bin/python -m pytest -q -p no:cacheprovider 2>&1 | tail -1)
 /venv/bin/python demo_$id.py > $root/$id.with.out 2>&1; rc_with=$?
-git stash -q
+git apply -R $root/$id.patch || { echo "$id: cannot reverse the patch"; exit 2; }
 /venv/bin/python demo_$id.py > $root/$id.without.out 2>&1; rc_without=$?
-git stash pop -q
+git apply $root/$id.patch
 echo "$id: suite[$t_with] demo_with=$rc_with demo_without=$rc_without"
 case "$t_with" in *"470 passed"*) ;; *) echo "$id: suite does not pass"; exit 1;; esac
 [ $rc_with = 1 ] && [ $rc_without = 0 ] || { echo "$id: demo does not discriminate"; exit 1; }
